@@ -533,4 +533,20 @@ func execMsg(op string, a []string) string {
 	return "unknown-op"
 }
 
+func init() {
+	register(&family{name: "wire", gen: genWrongType, exec: execWrongType})
+	// cbor.encdup is answered by the wrongtype executor
+	old := families["cbor"].exec
+	families["cbor"].exec = func(op string, a []string) string {
+		if op == "cbor.encdup" {
+			return execWrongType(op, a)
+		}
+		return old(op, a)
+	}
+}
+
+func unusedMsg() string {
+	return ""
+}
+
 func genMsgOps(r *rand.Rand, n int) []string { return genMsg(r, n, "roundtrip") }
